@@ -25,6 +25,25 @@ Definition visit_seq (N : nat) (elems : bytes) : outcome bytes :=
   let* (arr, idx) := visit_seq_loop N elems (zeros N) O in
   if negb (idx =? N)%nat then Err else Ok arr.
 
+(* the resizable heap containers (HeapBytes, LockedBytes; nightly): the buffer is pre-sized from the
+   deserialiser's size hint (serde_json: none = 0, bincode: the exact count), grown by one when
+   idx >= len, and cut to the elements read (fix: commits in /repo; before them the default hint
+   was 1, growth happened only when idx > len -- an index panic -- and nothing was cut).
+   Locked<HeapByteArray<N>> now runs the same loop as StackByteArray<N>: [visit_seq]. *)
+Fixpoint heap_visit_seq_loop (elems arr : bytes) (idx : nat) : bytes * nat :=
+  match elems with
+  | [] => (arr, idx)
+  | e :: r =>
+    let arr := if (length arr <=? idx)%nat then arr ++ zeros (idx + 1 - length arr) else arr in
+    heap_visit_seq_loop r (upd arr idx e) (S idx)
+  end.
+Definition resize (arr : bytes) (n : nat) : bytes := firstn n arr ++ zeros (n - length arr).
+Definition heap_visit_seq (hint : nat) (elems : bytes) : outcome bytes :=
+  let '(arr, idx) := heap_visit_seq_loop elems (zeros hint) O in Ok (resize arr idx).
+
+(* visit_bytes of the heap containers: HeapBytes::from(v) / from_slice_into_locked(v) *)
+Definition heap_visit_bytes (v : bytes) : outcome bytes := Ok v.
+
 (* impl TryFrom<&[u8]> for StackByteArray<N> *)
 Definition try_from (N : nat) (s : bytes) : outcome bytes := if (length s =? N)%nat then Ok s else Err.
 
